@@ -132,7 +132,16 @@ AckNack(r, base, set) ==
                /\ pRep' = [pRep EXCEPT ![r] = IF pPres[r] THEN ~(b > hlast) ELSE @]
                /\ AbsAckNack(r, base, set, hb, out, w[3])
   /\ UNCHANGED <<hb, hfirst, pPres, pRel, awUntil>>
-  /\ Log([a |-> "AckNack", r |-> r, base |-> base, set |-> SetToSortSeq(set, Lt)])
+  \* how the datagram says whom it is for, and the shape of its bitmap, do not matter: drawn for the replay
+  /\ Log([a |-> "AckNack", r |-> r, base |-> base, set |-> SetToSortSeq(set, Lt),
+          dst |-> RandomElement({"", "own"}), nbits |-> RandomElement(0..3), dirty |-> RandomElement(BOOLEAN)])
+
+\* an ACKNACK of reader r for the writer with the same entity id in ANOTHER participant (INFO_DST names it) reaches our
+\* socket: MessageReceiver::handle_reader_submessage drops it, nothing happens
+AckNackElsewhere(r, base, set) ==
+  /\ AbsOutputs(hb, <<>>, done)
+  /\ UNCHANGED implVars
+  /\ Log([a |-> "AckNack", r |-> r, base |-> base, set |-> SetToSortSeq(set, Lt), dst |-> "other", nbits |-> 0, dirty |-> FALSE])
 
 (* ---- TimedEvent::SendRepairData ---- *)
 Repair(r) ==
@@ -204,7 +213,7 @@ Next ==
   \/ \E r \in Readers : Lose(r) \/ Repair(r) \/ RepairDone(r)
   \/ \E r \in Readers, base \in 0..(MaxWrites + 2) :
        \E set \in SUBSET (base .. (IF base + 1 > MaxWrites + 1 THEN MaxWrites + 1 ELSE base + 1)) :
-         AckNack(r, base, {s \in set : s >= 1})
+         (AckNack(r, base, {s \in set : s >= 1}) \/ (base >= 1 /\ AckNackElsewhere(r, base, {s \in set : s >= 1})))
   \/ HBTick \/ Clean \/ Wait
 
 Spec == Init /\ [][Next]_vars
